@@ -155,3 +155,28 @@ mut("pay-bind-text", ["C06", "C19"], [(SQL, "                StoredUuid(parent_v
 mut("hargs-parent-from-client", ["C02", "C09", "C14"], [(AV, ".add_version(client_id, parent_version_id, body.to_vec())", ".add_version(client_id, client_id, body.to_vec())")], "H-ARGS", "client id used as the parent version id")
 mut("hargs-snapshot-swapped", ["C09", "C10", "C14"], [(AS, ".add_snapshot(client_id, version_id, body.to_vec())", ".add_snapshot(version_id, client_id, body.to_vec())")], "S-CLIENTID", "client id and version id swapped (both Uuid)")
 mut("nostate-cache-in-server", ["C09", "C03", "C07"], [(SRV, "pub struct Server {\n    config: ServerConfig,", "pub struct Server {\n    last_seen: std::sync::Mutex<std::collections::HashMap<Uuid, Uuid>>,\n    config: ServerConfig,"), (SRV, "        Self {\n            config,\n            storage: Box::new(storage),\n        }", "        Self {\n            last_seen: Default::default(),\n            config,\n            storage: Box::new(storage),\n        }")], "C03.NOSTATE", "shared mutable state added to Server")
+
+# ---- breaks hidden INSIDE an independently written refactoring (neutral patch first, then the break): the shape normaliser
+# must not normalise a violation away
+import os as _os
+_NP = _os.path.join(_os.path.dirname(_os.path.dirname(_os.path.abspath(__file__))), "neutral_patches")
+
+
+def _np(n):
+    return ("@patch", _os.path.join(_NP, n + ".diff"), None)
+
+
+mut("comp-apierror-into-400", ["C05", "C14"], [_np("WC2"), (API, "    fn from(err: ApiError) -> Self {\n        err.0\n    }", "    fn from(err: ApiError) -> Self {\n        error::ErrorBadRequest(err.0.to_string())\n    }")],
+    "C05.MAP", "ApiError newtype: the framework-boundary conversion answers 400 for everything")
+mut("comp-apierror-from-servererror-404", ["C05", "C14"], [_np("WC2"), (API, "    fn from(err: ServerError) -> Self {\n        ApiError(server_error_to_actix(err))\n    }", "    fn from(err: ServerError) -> Self {\n        ApiError(error::ErrorNotFound(err.to_string()))\n    }")],
+    "C05.MAP", "ApiError newtype: the `?` conversion of ServerError answers 404 for storage failures")
+mut("comp-lookup-enum-swapped", ["C01"], [_np("WB4"), (SQL, "VersionLookup::ById => \"SELECT version_id, parent_version_id, history_segment FROM versions WHERE version_id = ? AND client_id = ?\"", "VersionLookup::ById => \"SELECT version_id, parent_version_id, history_segment FROM versions WHERE parent_version_id = ? AND client_id = ?\"")],
+    "C01.KEY", "enum-selected SQL text: the by-id lookup selects by parent")
+mut("comp-uuid-header-absent-is-nil", ["C16", "C09"], [_np("WB1"), (API, "uuid_header(req, CLIENT_ID_HEADER, badrequest)?.ok_or_else(badrequest)?;", "uuid_header(req, CLIENT_ID_HEADER, badrequest)?.unwrap_or_else(Uuid::nil);")],
+    "S-CLIENTID", "header helper: an absent client id becomes the nil id")
+mut("comp-uuid-header-malformed-is-nil", ["C09", "C15"], [_np("WB1"), (API, "    let uuid = Uuid::parse_str(value).map_err(|_| bad())?;\n    Ok(Some(uuid))", "    match Uuid::parse_str(value) {\n        Ok(uuid) => Ok(Some(uuid)),\n        Err(_) => Ok(Some(Uuid::nil())),\n    }")],
+    "S-CLIENTID", "header helper: a malformed client id becomes the nil id")
+mut("comp-sqlcontext-result-dropped", ["C05", "C04"], [_np("WC3"), (SQL, ".sql_context(\"Error creating/updating snapshot\")?;", ".sql_context(\"Error creating/updating snapshot\").ok();")],
+    "C05.ERR", "extension trait: the snapshot UPDATE's failure is discarded")
+mut("comp-divisor-const-one", ["C12"], [_np("WB2"), (SRV, "const HIGH_EXTRA_DIVISOR: u8 = 2;", "const HIGH_EXTRA_DIVISOR: u8 = 1;")],
+    "C12.FACTOR", "named divisor constant: high threshold at twice the target")
